@@ -258,6 +258,22 @@ static int inject_fire(const char *name)
 	return 0;
 }
 
+static void hygiene(const char *op, int fd, const char *what);
+
+/* a call that cannot complete now: fine on a non-blocking descriptor (EAGAIN); on a blocking one the single-threaded
+ * daemon would sleep in the kernel, with every other connection waiting */
+static void would_block(const char *op, int fd)
+{
+	if (!(fds[fd].fl & O_NONBLOCK)) hygiene(op, fd, "would block: the descriptor is in blocking mode");
+}
+
+static int sigpipe_ignored;
+/* EPIPE comes with a SIGPIPE whose default action terminates the process */
+static void broken_pipe(int fd)
+{
+	if (!sigpipe_ignored) hygiene("writev", fd, "SIGPIPE is not ignored: this write would kill the daemon");
+}
+
 static void hygiene(const char *op, int fd, const char *what)
 {
 	void *bt[12];
@@ -386,7 +402,6 @@ static uint32_t readiness(const struct simfd *f)
 
 int __wrap_socket(int domain, int type, int protocol)
 {
-	(void)type;
 	(void)protocol;
 	int e = inject_fire("socket");
 	if (e) {
@@ -395,6 +410,7 @@ int __wrap_socket(int domain, int type, int protocol)
 	}
 	int fd = new_fd(K_LISTENER, S_OPEN);
 	fds[fd].family = domain;
+	fds[fd].fl = (type & SOCK_NONBLOCK) ? O_NONBLOCK : 0;
 	return fd;
 }
 
@@ -527,6 +543,7 @@ int __wrap_accept(int fd, struct sockaddr *addr, socklen_t *len)
 	struct simfd *f = live("accept", fd, K_LISTENER);
 	if (!f) return -1;
 	if (f->npending == 0) {
+		would_block("accept", fd);
 		errno = EAGAIN;
 		return -1;
 	}
@@ -596,6 +613,7 @@ ssize_t __wrap_read(int fd, void *buf, size_t count)
 			return -1;
 		}
 		if (f->expirations == 0) {
+			would_block("read", fd);
 			errno = EAGAIN;
 			return -1;
 		}
@@ -629,6 +647,7 @@ ssize_t __wrap_read(int fd, void *buf, size_t count)
 			trace_ev("[\"e\",%d,0]", fd);
 			return 0;
 		}
+		would_block("read", fd);
 		errno = EAGAIN;
 		return -1;
 	}
@@ -678,12 +697,14 @@ ssize_t __wrap_writev(int fd, const struct iovec *iov, int iovcnt)
 	f->nwritev++;
 	if (f->werr_after == 0) {
 		if (taps_on) ds_printf(&wlog, "%s[%d,%zu,-%d]", wlog.len ? "," : "", fd, total, f->werr_errno);
+		if (f->werr_errno == EPIPE) broken_pipe(fd);
 		errno = f->werr_errno;
 		return -1;
 	}
 	if (f->werr_after > 0) f->werr_after--;
 	if (f->rst) {
 		if (taps_on) ds_printf(&wlog, "%s[%d,%zu,-%d]", wlog.len ? "," : "", fd, total, EPIPE);
+		broken_pipe(fd);
 		errno = EPIPE;
 		return -1;
 	}
@@ -696,6 +717,7 @@ ssize_t __wrap_writev(int fd, const struct iovec *iov, int iovcnt)
 		f->neagain++;
 		if (taps_on) ds_printf(&wlog, "%s[%d,%zu,-%d]", wlog.len ? "," : "", fd, total, EAGAIN);
 		trace_ev("[\"w\",%d,%zu,-%d]", fd, total, EAGAIN);
+		would_block("writev", fd);
 		errno = EAGAIN;
 		return -1;
 	}
@@ -857,13 +879,14 @@ int __wrap_epoll_ctl(int epfd, int op, int fd, struct epoll_event *event)
 int __wrap_timerfd_create(int clockid, int flags)
 {
 	(void)clockid;
-	(void)flags;
 	int e = inject_fire("timerfd_create");
 	if (e) {
 		errno = e;
 		return -1;
 	}
-	return new_fd(K_TIMER, S_OPEN);
+	int tfd = new_fd(K_TIMER, S_OPEN);
+	fds[tfd].fl = (flags & TFD_NONBLOCK) ? O_NONBLOCK : 0;
+	return tfd;
 }
 
 int __wrap_timerfd_settime(int fd, int flags, const struct itimerspec *nv, struct itimerspec *ov)
@@ -898,8 +921,13 @@ int __wrap_timerfd_settime(int fd, int flags, const struct itimerspec *nv, struc
 }
 
 typedef void (*sighandler_t)(int);
+sighandler_t __real_signal(int signum, sighandler_t handler);
 sighandler_t __wrap_signal(int signum, sighandler_t handler)
 {
+	if (signum == SIGPIPE) {
+		sigpipe_ignored = handler != SIG_DFL;
+		return SIG_DFL;
+	}
 	if (signum == SIGTERM) {
 		sighandler_t old = sigterm_handler;
 		sigterm_handler = (handler == SIG_DFL || handler == SIG_IGN) ? NULL : handler;
@@ -1622,7 +1650,7 @@ int __wrap_epoll_wait(int epfd, struct epoll_event *events, int maxevents, int t
 #else
 int main(int argc, char **argv)
 {
-	signal(SIGPIPE, SIG_IGN);
+	__real_signal(SIGPIPE, SIG_IGN); /* the harness' own pipes; the daemon's request goes through __wrap_signal */
 	/* failures of start-up calls are scripted through the environment: SIMK_STARTUP_INJECT="bind:2:98,listen:1:12" */
 	const char *si = getenv("SIMK_STARTUP_INJECT");
 	startup_inject = si != NULL;
